@@ -31,6 +31,7 @@ DECIDED = [
     "LOOKUP-1 (shared with C14) path lookup matches names by plain equality",
     "CLEAN-1 clean() reaches every Section below the start: BaseSection.clean passes on to the inherited clean on every path, which visits every child",
     "CACHE-2 the cache file of an included / terminology URL is named by a digest of the whole URL (two URLs never share a cache file)",
+    "ID-2 (C11) new_id changes the id only: the clones merge adds keep the name unmerge looks them up by",
     "FIN-1 finalize visits every Section of the document and resolves through the public setters",
 ]
 NOT_DECIDED = [
@@ -185,6 +186,11 @@ def run(prog, rep):
         good = bool(ids) and (first.id in ids or not reach_avoiding(sg, first, lp, lambda s0, k0, d0: d0.id in ids, skip_kinds=("exc",)))
     rep.check(good, "CLEAN-1", "Sectionable.clean cleans every child Section", "for child in self: child.clean()",
               "Sectionable.clean does not call clean() on every child Section", sc.where)
+
+    from ..report import import_verdicts
+    import_verdicts(prog, rep, "C11", ("ID-2",), "ID-2",
+                    "merge adds clone()s of the referenced children and unmerge finds them again through contains(), i.e. by name: new_id(), "
+                    "which clone calls, must not touch the name")
 
     # --------------------------------------------------------------- CACHE-2
     cache_key_rule(prog, rep, "CACHE-2")
